@@ -33,6 +33,8 @@ def cfg_specs(tier):
         dict(label="prim3", gen="gen_prim", kw={}, n=3, seed=4, lite=True),
         dict(label="dfs3f", gen="gen_dfs", kw={}, n=6, seed=6, filters=[("path_length", (3,), {}), ("truncate_count", (4,), {})]),
         dict(label="dfs120", gen="gen_dfs", kw={}, n=120, seed=5),
+        # a filter that is not idempotent: data served from the cache must not be filtered a second time
+        dict(label="dfs9pct", gen="gen_dfs", kw={}, n=9, seed=12, lite=True, filters=[("cut_percentile_shortest", (40.0,), {})]),
     ]
     if tier != "quick":
         S.append(dict(label="dfs120f", gen="gen_dfs_percolation", kw=dict(p=0.2), n=120, seed=8, filters=[("path_length", (3,), {})]))
@@ -220,6 +222,15 @@ def judge_image(spec, cfg, path, family, desc, img, want_fp, res):
         res.fail(f"C11|{fam}|{spec['label']}|wrong_data", f"from_config with cache image {family}{desc} of {spec['label']} returned {len(ds)} mazes that differ "
                  f"from a fresh generation", rd)
         return "wrong"
+    # the next request finds the file that was left behind: it must be answered with the same data
+    try:
+        ds2 = MazeDataset.from_config(cfg, local_base_path=os.path.dirname(path), do_download=False)
+        if fp(ds2) != want_fp:
+            res.fail(f"C11|{fam}|{spec['label']}|second_request_wrong_data", f"the request after from_config with cache image {family}{desc} of {spec['label']} (served from the "
+                     f"file left behind) returned {len(ds2)} mazes that differ from a fresh generation ({len(ds)} the first time)", rd)
+    except Exception as e:
+        res.fail(f"C11|{fam}|{spec['label']}|second_request_raised|{type(e).__name__}", f"the request after from_config with cache image {family}{desc} raised "
+                 f"{type(e).__name__}: {str(e)[:150]}", rd)
     # a loadable file equal to the returned dataset is left behind
     try:
         back = MazeDataset.read(path)
@@ -342,8 +353,8 @@ HIST_REQS = [(True, True), (False, True), (True, False), (False, False)]
 
 
 def hist_family():
-    A = dict(label="A", gen="gen_dfs", kw={}, n=4, seed=42, grid=3, name="c11h")
-    return dict(A=A, B=dict(A, seed=43), Ac=dict(A, n=6), Bg=dict(A, gen="gen_wilson"))
+    A = dict(label="A", gen="gen_dfs", kw={}, n=9, seed=42, grid=3, name="c11h", filters=[("cut_percentile_shortest", (40.0,), {})])
+    return dict(A=A, B=dict(A, seed=43), Ac=dict(A, n=12), Bg=dict(A, gen="gen_wilson"))
 
 
 def hist_events():
